@@ -329,7 +329,8 @@ def judge(case, obs, res):
 
 def isolate(binpath, case, obs, res, env=None, runner=None):
     """a shard died / ran out of CPU on this case: reproduce it alone with a 20 s CPU limit"""
-    o2 = common.run_batch(binpath, [case], cpu_s=20, wall_s=300, env=env, runner=runner)[0]
+    o2 = common.run_batch(binpath, [case], cpu_s=20 if not runner else 600, wall_s=900, env=env, runner=runner,
+                          as_bytes=0 if (env or runner) else 8 << 30)[0]
     ep = case.get("ep", case["op"])
     if "crash" in o2:
         sig = o2["crash"].get("signal")
@@ -361,7 +362,9 @@ def shard(binpath, seed, sh, n, env=None, runner=None, tag="native"):
         c["layout"] = scen.dumps(w)
         del c["_layout_doc"]
     cases += dirs
-    obs = common.run_batch(binpath, cases, cpu_s=300, wall_s=1500, env=env, runner=runner)
+    # sanitizer / valgrind runs reserve huge virtual ranges: no address-space limit there
+    obs = common.run_batch(binpath, cases, cpu_s=300 if not runner else 3000, wall_s=1500 if not runner else 3400, env=env, runner=runner,
+                           as_bytes=0 if (env or runner) else 8 << 30)
     for c, o in zip(cases, obs):
         r = judge(c, o, res)
         if r == "supervisor":
@@ -426,7 +429,43 @@ def valgrind_pass(ctx, res, n):
     res.extras["valgrind"] = f"{n} entry-point inputs + rule/dir cases under memcheck (error-exitcode=97 => process death => reported)"
 
 
-MIRI_EPS = ["canon", "keyid_json", "keyid_str", "rule_json", "step_json", "inspection_json", "link", "layout", "pae_unpack", "pae_try_unpack",
+
+def miri_shard(cases, tag):
+    """run cases under Miri in one process, restarting after an 'unsupported operation' abort"""
+    sd = common.scratch_dir()
+    cin, cout = sd / f"miri{tag}.in", sd / f"miri{tag}.out"
+    with open(cin, "w") as f:
+        for c in cases:
+            f.write(json.dumps(c, ensure_ascii=False) + "\n")
+    open(cout, "w").close()
+    obs, start, ub, unsupported = {}, 0, None, []
+    for attempt in range(12):
+        rc, out = cargo(["+nightly", "miri", "run", "--offline", "--target-dir", "target-miri", "--", str(cin), str(cout), str(sd / f"miri{tag}.d"), str(start)],
+                        {"MIRIFLAGS": "-Zmiri-disable-isolation"}, timeout=3000)
+        begun, ended = None, False
+        for line in open(cout, errors="replace"):
+            try:
+                o = json.loads(line)
+            except ValueError:
+                continue
+            if "idx" in o:
+                obs[o["idx"]] = o
+            elif "begin" in o:
+                begun = o["begin"]
+            elif "end" in o:
+                ended = True
+        if ended or begun is None:
+            break
+        if "Undefined Behavior" in out:
+            ub = (begun, out[-1500:])
+            break
+        unsupported.append((cases[begun].get("ep", cases[begun]["op"]), out[-200:]))
+        start = begun + 1
+        open(cout, "w").close()
+    return obs, ub, unsupported
+
+
+MIRI_EPS = ["canon", "keyid_json", "keyid_str", "rule_json", "step_json", "inspection_json", "link", "pae_unpack", "pae_try_unpack",
             "sig_hex", "signature_json", "envelope", "statement_json", "predicate_json", "wrapper_link"]
 
 
@@ -435,56 +474,61 @@ def miri_pass(ctx, res, n):
     rng = ctx.rng(4000)
     W = scen.World(ctx.bin)
     seeds = Seeds(rng, W, ctx.bin)
-    cases = [c for c in gen_entry_cases(rng, seeds, n * 6) if c["ep"].split(":")[0] in MIRI_EPS]
-    # layouts carry keys (key ids need ring): keep only key-free documents for Miri
-    cases = [c for c in cases if not (c["ep"] in ("layout", "wrapper_layout") and "keyval" in json.dumps(c["data"]))][:n]
-    cases += gen_rule_cases(rng, 30)
-    sd = common.scratch_dir()
-    cin, cout = sd / "miri.in", sd / "miri.out"
-    with open(cin, "w") as f:
-        for c in cases:
-            f.write(json.dumps(c, ensure_ascii=False) + "\n")
-    open(cout, "w").close()
+    cases = [c for c in gen_entry_cases(rng, seeds, n * 8) if c["ep"].split(":")[0] in MIRI_EPS][:n]
+    cases += gen_rule_cases(rng, 40)
     t = time.time()
-    rc, out = cargo(["+nightly", "miri", "run", "--offline", "--target-dir", "target-miri", "--", str(cin), str(cout), str(sd / "miri.d")],
-                    {"MIRIFLAGS": "-Zmiri-disable-isolation"}, timeout=3000)
-    obs = {}
-    for line in open(cout, errors="replace"):
-        try:
-            o = json.loads(line)
-        except ValueError:
-            continue
-        if "idx" in o:
-            obs[o["idx"]] = o
-    res.extras["miri"] = {"cases": len(cases), "completed": len(obs), "rc": rc, "wall_s": round(time.time() - t, 1)}
-    if "Undefined Behavior" in out or "error: unsupported operation" in out:
-        ub = "Undefined Behavior" in out
+    # build once, then 8 single-threaded interpreters in parallel
+    cargo(["+nightly", "miri", "run", "--offline", "--target-dir", "target-miri", "--", "/dev/null", "/dev/null", str(common.scratch_dir() / "m0")],
+          {"MIRIFLAGS": "-Zmiri-disable-isolation"}, timeout=3000)
+    k = 8
+    parts = common.pmap(miri_shard, [(cases[i::k], i) for i in range(k)], nproc=k)
+    done = 0
+    unsup = []
+    for i, (obs, ub, unsupported) in enumerate(parts):
+        sub = cases[i::k]
+        unsup += [u[0] for u in unsupported]
         if ub:
-            idx = max(obs) + 1 if obs else 0
-            res.violate("miri:undefined-behaviour", "Miri reported undefined behaviour: " + out[-600:], cases[min(idx, len(cases) - 1)], {"log": out[-1500:]}, "no UB")
-        else:
-            res.extras["miri"]["unsupported"] = out[-300:]
-    for i, o in obs.items():
-        r = judge(cases[i], o, res)
-        res.note(["miri", cases[i].get("ep"), cases[i].get("data"), cases[i].get("item")], True,
-                 cls=[f"build:miri", f"miri:{cases[i].get('ep', 'rules').split(':')[0]}:{r}"])
+            res.violate("miri:undefined-behaviour", "Miri reported undefined behaviour: " + ub[1][-600:], sub[ub[0]], {"log": ub[1]}, "no UB")
+        for j, o in obs.items():
+            r = judge(sub[j], o, res)
+            done += 1
+            res.note(["miri", sub[j].get("ep"), sub[j].get("data"), sub[j].get("item")], True,
+                     cls=["build:miri", f"miri:{sub[j].get('ep', 'rules').split(':')[0]}:{r}"])
+    res.extras["miri"] = {"cases": len(cases), "completed": done, "unsupported_operations_skipped": sorted(set(unsup)),
+                          "wall_s": round(time.time() - t, 1)}
 
 
 def fuzz_pass(ctx, res, secs):
     fd = common.HARNESS / "fuzz"
     if not (fd / "Cargo.toml").exists():
         return
-    lock = fd / "Cargo.lock"
+    if not (fd / "Cargo.lock").exists():
+        shutil.copy(common.REPO / "Cargo.lock", fd / "Cargo.lock")
     targets = ["fuzz_metablock", "fuzz_keys", "fuzz_pae", "fuzz_rules"]
     done = {}
+    # seed corpora from valid documents (the corpus directories are scratch, not committed)
+    rng = ctx.rng(5000)
+    W = scen.World(ctx.bin)
+    seeds = Seeds(rng, W, ctx.bin)
+    seedfiles = {"fuzz_metablock": [json.dumps(w).encode() for w in seeds.json["metablock"]] +
+                                   [json.dumps(adversarial_json(rng, w), ensure_ascii=False).encode() for w in seeds.json["metablock"] for _ in range(5)],
+                 "fuzz_keys": [bytes([i % 4]) + b for i, b in enumerate(seeds.bin["spki"] + seeds.bin["pem_spki"] + seeds.bin["pk8"])] +
+                              [b"\x00" + json.dumps(p).encode() for p in seeds.json["pubkey_json"]],
+                 "fuzz_pae": seeds.bin["pae_unpack"] + [json.dumps(e).encode() for e in seeds.json["envelope"]],
+                 "fuzz_rules": [json.dumps({"item": c["item"], "links": c["links"]}).encode() for c in gen_rule_cases(rng, 40)]}
+    for t, files in seedfiles.items():
+        cd = fd / "corpus" / t
+        cd.mkdir(parents=True, exist_ok=True)
+        for i, b in enumerate(files):
+            (cd / f"seed{i}").write_bytes(b)
     for t in targets:
         art = fd / "artifacts" / t
         shutil.rmtree(art, ignore_errors=True)
         rc, out = cargo(["+nightly", "fuzz", "run", t, "--", f"-max_total_time={secs}", "-timeout=10", f"-seed={ctx.seed + 1}",
                          "-fork=8", "-ignore_crashes=0", "-rss_limit_mb=4096", "-print_final_stats=1"], {}, cwd=fd, timeout=secs * 4 + 1200)
-        m = re.findall(r"stat::number_of_executed_units:\s+(\d+)", out)
+        m = re.findall(r"^#(\d+): cov:", out, re.M)
         cov = re.findall(r"cov: (\d+)", out)
-        execs = sum(int(x) for x in m) if m else 0
+        execs = max(int(x) for x in m) if m else 0
         done[t] = {"rc": rc, "executions": execs, "max_cov": max(map(int, cov)) if cov else None}
         crashes = sorted(art.glob("crash-*")) + sorted(art.glob("timeout-*")) + sorted(art.glob("oom-*")) if art.exists() else []
         if "error: could not compile" in out or ("failed to" in out and execs == 0 and not crashes):
